@@ -224,10 +224,11 @@ class Fold(object):
 
     def _instantiate(self, ctx, seq, F):
         import ast as _ast
-        key = (self.name, seq.term.get_id())
+        key = (self.name, seq.term.get_id(), id(seq.struct))
         if key in ctx.fold_done:
             return
         ctx.fold_done.add(key)
+        ctx.fold_keep.append(seq.struct)        # keep the tuple alive: its id() is part of the key
         st = seq.struct
         if st[0] == "empty":
             if self.kind == "bytes":
@@ -351,6 +352,8 @@ class SymDict(object):
         from .models import _MISSING
         if not is_sym(key):
             if key in self.known:
+                self.excluded.add(key)
+                self._in_rest.pop(key, None)
                 return self.known.pop(key)
             if self.rest and key not in self.excluded:
                 ctx.unsupported("pop of a key that may be in the unknown remainder")
